@@ -300,7 +300,7 @@ def run(report):
             rel = f[len(F):]
             key = next(k for k in sorted(files, key=len, reverse=True) if rel.startswith(k))
             report.function(f, base / files[key])
-    run_laws(report, MOD, ls, "C15")
+    run_laws(report, MOD, ls, "C15", plain="quick")
     report.extra["exhaustive"] = True
     report.extra["shape_rule"] = "all 6 ordered pairs and all 6 ordered triples of {Cartesian, cylindrical, spherical}; generic coordinates"
     report.trust("CPython 3.12", "SymPy 1.14: subs, diff, auto-evaluation incl. cos(atan2(y,x)) = x/sqrt(x^2+y^2)",
